@@ -14,7 +14,7 @@ variable {π ν : Type} [CompLike π]
 
 /-- `Sane` only looks at node indices, edges and the allocator -/
 theorem sane_congr {s s' : Sys π ν} (hs : Sane s) (h1 : s'.ids = s.ids) (h2 : s'.edges = s.edges)
-    (h3 : s'.free = s.free) (h4 : s'.next = s.next) : Sane s' := by
+    (h3 : s'.free = s.free) (h4 : s'.next = s.next) (h5 : (dkeys s'.nodes).Nodup) : Sane s' := by
   constructor
   · rw [h1]; exact hs.ids_nodup
   · rw [h1, h2]; exact hs.edges_live
@@ -24,6 +24,7 @@ theorem sane_congr {s s' : Sys π ν} (hs : Sane s) (h1 : s'.ids = s.ids) (h2 : 
   · rw [h3]; exact hs.free_nodup
   · rw [h1, h4]; exact hs.ids_lt
   · rw [h3, h4]; exact hs.free_lt
+  · exact h5
 
 /-! ### paths after adding one edge -/
 
@@ -95,6 +96,7 @@ theorem addNode_spec (s : Sys π ν) (c : π) (hs : Sane s) :
       · have := hs.ids_lt n hn; show n < s.next + 1; omega
       · show n < s.next + 1; omega
     · simp [hf]
+    · exact hs.nodes_nodup
   | cons f rest =>
     have hfresh : f ∉ s.ids := hs.free_fresh f (by simp [hf])
     refine ⟨hfresh, rfl, rfl, rfl, rfl, rfl, rfl, rfl, rfl, rfl, ?_⟩
@@ -126,6 +128,7 @@ theorem addNode_spec (s : Sys π ν) (c : π) (hs : Sane s) :
       · exact hs.ids_lt n hn
       · subst hn; exact hs.free_lt _ (by simp [hf])
     · intro g hg; exact hs.free_lt g (by simp [hf, hg])
+    · exact hs.nodes_nodup
 
 theorem sane_addEdge {s : Sys π ν} (hs : Sane s) {p c : Nat} (hp : p ∈ s.ids) (hc : c ∈ s.ids) (hne : p ≠ c)
     (hcp : ¬ Path s.edges c p) : Sane (s.addEdge p c) := by
@@ -150,6 +153,7 @@ theorem sane_addEdge {s : Sys π ν} (hs : Sane s) {p c : Nat} (hp : p ∈ s.ids
     · exact hs.free_nodup
     · exact hs.ids_lt
     · exact hs.free_lt
+    · exact hs.nodes_nodup
 
 theorem sane_removeNode {s : Sys π ν} (hs : Sane s) (n : Nat) : Sane (s.removeNode n) := by
   unfold Sys.removeNode
@@ -184,6 +188,7 @@ theorem sane_removeNode {s : Sys π ν} (hs : Sane s) (n : Nat) : Sane (s.remove
       rcases List.mem_cons.mp hf with rfl | hf
       · exact hs.ids_lt _ hn
       · exact hs.free_lt f hf
+    · exact hs.nodes_nodup
   · exact hs
 
 theorem ids_setPayload (s : Sys π ν) (n : Nat) (c : π) : (s.setPayload n c).ids = s.ids := by
@@ -195,7 +200,7 @@ theorem ids_setPayload (s : Sys π ν) (n : Nat) (c : π) : (s.setPayload n c).i
   split <;> simp_all
 
 theorem sane_setPayload {s : Sys π ν} (hs : Sane s) (n : Nat) (c : π) : Sane (s.setPayload n c) :=
-  sane_congr hs (ids_setPayload s n c) rfl rfl rfl
+  sane_congr hs (ids_setPayload s n c) rfl rfl rfl hs.nodes_nodup
 
 /-! ### the four registry deletions do not touch the graph -/
 
@@ -212,9 +217,24 @@ theorem delRegs_graph (s : Sys π ν) (x : String) :
       · exact ⟨rfl, rfl, rfl, rfl⟩
       · split <;> exact ⟨rfl, rfl, rfl, rfl⟩
 
+theorem delRegs_nodes (s : Sys π ν) (x : String) :
+    (s.delRegs x).1.nodes = s.nodes ∨ (s.delRegs x).1.nodes = ddel s.nodes x := by
+  unfold Sys.delRegs Sys.fail
+  simp only
+  split
+  · exact Or.inl rfl
+  · split
+    · exact Or.inr rfl
+    · split
+      · exact Or.inr rfl
+      · split <;> exact Or.inr rfl
+
 theorem sane_delRegs {s : Sys π ν} (hs : Sane s) (x : String) : Sane (s.delRegs x).1 := by
   obtain ⟨h1, h2, h3, h4⟩ := delRegs_graph s x
-  exact sane_congr hs (by simp [Sys.ids, h1]) h2 h3 h4
+  refine sane_congr hs (by simp [Sys.ids, h1]) h2 h3 h4 ?_
+  rcases delRegs_nodes s x with h | h
+  · rw [h]; exact hs.nodes_nodup
+  · rw [h]; exact nodup_dkeys_ddel hs.nodes_nodup
 
 theorem sane_andThen {r : Sys.Res π ν} {f : Sys π ν → Sys.Res π ν} (hr : Sane r.1)
     (hf : ∀ s, Sane s → Sane (f s).1) : Sane (Sys.andThen r f).1 := by
@@ -232,7 +252,7 @@ theorem sane_addSource {s : Sys π ν} (hs : Sane s) (c : π) (g r : String) : S
   · split
     · exact hs
     · obtain ⟨_, h2, h3, _, _, _, _, _, _, _, h11⟩ := addNode_spec s c hs
-      exact sane_congr h11 rfl rfl rfl rfl
+      exact sane_congr h11 rfl rfl rfl rfl (nodup_dkeys_dset h11.nodes_nodup)
 
 theorem sane_addEdges_sink {s : Sys π ν} (hs : Sane s) (i : Nat) (hi : i ∈ s.ids) (hsink : ∀ b, (i, b) ∉ s.edges)
     (l : List Nat) (hl : ∀ p ∈ l, p ∈ s.ids ∧ p ≠ i) : Sane (s.addEdges i l) := by
@@ -320,7 +340,7 @@ theorem sane_addComp {s : Sys π ν} (hs : Sane s) (par : ParentArg) (c : π) (g
               rw [if_neg (fun h => (hnoedge _ _ h).2 rfl)] at this
               exact this
             refine sane_addEdges_sink ?_ i ?_ ?_ prest ?_
-            · exact sane_congr hs2 rfl rfl rfl rfl
+            · exact sane_congr hs2 rfl rfl rfl rfl (nodup_dkeys_dset hs2.nodes_nodup)
             · exact hi1
             · intro b hb
               rcases List.mem_append.mp hb with hb | hb
@@ -337,7 +357,7 @@ theorem sane_changeComp {s : Sys π ν} (hs : Sane s) (x : String) (c : π) (g r
   repeat' split
   all_goals first
     | exact hs
-    | exact sane_congr (sane_setPayload hs _ c) rfl rfl rfl rfl
+    | exact sane_congr (sane_setPayload hs _ c) rfl rfl rfl rfl (nodup_dkeys_dset (nodup_dkeys_ddel hs.nodes_nodup))
 
 theorem sane_delDescendants {s : Sys π ν} (hs : Sane s) (l : List Nat) : Sane (s.delDescendants l).1 := by
   induction l generalizing s with
@@ -399,7 +419,7 @@ theorem sane_setSysPhases {s : Sys π ν} (hs : Sane s) (ph : List (String × ν
   repeat' split
   all_goals first
     | exact hs
-    | exact sane_congr hs rfl rfl rfl rfl
+    | exact sane_congr hs rfl rfl rfl rfl hs.nodes_nodup
 
 theorem sane_setCompPhases {s : Sys π ν} (hs : Sane s) (x : String) (pc : PConfArg ν) :
     Sane (s.setCompPhases x pc).1 := by
@@ -407,7 +427,7 @@ theorem sane_setCompPhases {s : Sys π ν} (hs : Sane s) (x : String) (pc : PCon
   repeat' split
   all_goals first
     | exact hs
-    | exact sane_congr hs rfl rfl rfl rfl
+    | exact sane_congr hs rfl rfl rfl rfl hs.nodes_nodup
 
 theorem sane_step_all {s : Sys π ν} (hs : Sane s) (op : Op π ν) : Sane (s.step op).1 := by
   cases op with
